@@ -21,7 +21,7 @@ RULE = ("(merge) pairs of nested dictionaries from a recursive strategy over a s
         "leaves; classes: disjoint, nested overlap, user scalar over default dict, user dict over default scalar, empty dicts. "
         "(load) JSON-compatible trees dumped as .json/.yml/.yaml. (validate) configurations built from the documented field table, "
         "each field absent or valid, and every single-field perturbation (wrong type incl. bool for number, below minimum, unknown "
-        "enum member, unknown key under elast.settings / symmetry, missing qha / elast); non-trivial = overlap at depth >= 2, or a "
+        "enum member, unknown key under elast.settings / symmetry, missing qha / elast); (load) JSON-like trees incl. numbers json writes as 1e-08 / 1e+16, written compact, indented by 2 or by tabs, and as YAML; non-trivial = overlap at depth >= 2, or a "
         "perturbation of a nested field; distinct by the drawn value")
 ASSUMPTIONS = [
     "when a user dictionary meets a default scalar (or the reverse) the user's value is the effective one",
@@ -186,7 +186,10 @@ def sub_apply_default(ctx):
 
 
 json_trees = st.recursive(
-    st.one_of(st.integers(-10 ** 6, 10 ** 6), st.floats(-1e6, 1e6, allow_nan=False), st.text("abc yes no null 1e3:#-", max_size=6),
+    st.one_of(st.integers(-10 ** 6, 10 ** 6), st.floats(-1e6, 1e6, allow_nan=False),
+              # numbers json writes in exponent notation without a decimal point (1e-08 is the packaged drop_atol)
+              st.sampled_from([1e-08, 1e-05, 5e-10, 1e+16, 2e+22, -3e-07, 1e-300]),
+              st.text("abc yes no null 1e3:#-", max_size=6),
               st.booleans(), st.none()),
     lambda ch: st.one_of(st.lists(ch, max_size=3), st.dictionaries(st.text("abcNT_", min_size=1, max_size=4), ch, max_size=3)), max_leaves=10)
 
@@ -195,7 +198,7 @@ def sub_load(ctx):
     import yaml
     from cij.io.config import read_config
 
-    def body(tree, top):
+    def body(tree, top, jstyle):
         cfg = {"qha": {}, "elast": {}, top: tree}
         d = tempfile.mkdtemp(prefix="cijc16-")
         try:
@@ -204,7 +207,7 @@ def sub_load(ctx):
                 p = os.path.join(d, "settings" + ext)
                 with open(p, "w") as fp:
                     if ext == ".json":
-                        json.dump(cfg, fp)
+                        json.dump(cfg, fp, **{"compact": {}, "indent-2": {"indent": 2}, "indent-tab": {"indent": "\t"}}[jstyle])
                     else:
                         yaml.safe_dump(cfg, fp)
                 loaded[ext] = ctx.observe(read_config, p, False, _bucket="C16/load/crash", _case={"tree": tree})
@@ -222,9 +225,10 @@ def sub_load(ctx):
                 raise PropertyViolation("C16/load/unknown-suffix-accepted", "a .txt file was loaded", {"tree": tree})
         finally:
             shutil.rmtree(d, ignore_errors=True)
-        ctx.case({"tree": tree, "top": top}, isinstance(tree, (dict, list)) and len(tree) > 0, classes=["load"])
+        ctx.case({"tree": tree, "top": top, "jstyle": jstyle}, isinstance(tree, (dict, list)) and len(tree) > 0, classes=["load", "json-" + jstyle])
 
-    ctx.run_given(body, json_trees, st.sampled_from(["output", "extra"]), max_examples=ctx.n(300, 20000))
+    ctx.run_given(body, json_trees, st.sampled_from(["output", "extra"]), st.sampled_from(["compact", "indent-2", "indent-tab"]),
+                  max_examples=ctx.n(300, 20000))
 
 
 # ---------------------------------------------------------------------------------------------------------
